@@ -34,6 +34,18 @@ CHECKS = {
             "Trusted: TLC, StrOps as the reading of the statement; the regex engine is not modelled (split only via escape_pattern); "
             "rounding compared numerically; case mapping on ASCII + e-acute only.",
             "DESIGN.md 4 C18"),
+    "C19": (["LibOps.tla", "Bits32.tla", "BigInt.tla", "Lib.tla", "Lib_Trace.tla", "BigIntTest.tla"],
+            "TLA+ reference operators for the collection/statistics/integer/bitwise library with a driver machine whose invariants "
+            "are the laws (TLC exhaustive on small lists, all permutations), exported cases replayed on the interpreter; TLC trace "
+            "validation of recorded calls (big ints as limbs, 32-bit words as halves)",
+            "TLC checks set algebra on equality classes (1 = 1.0), unique-keeps-first, textbook definitions of reverse/flatten/zip/"
+            "enumerate/range/chunks/pairs/grouped/sum/prod, permutation invariance of mean/median*/min/max over all permutations of "
+            "multisets <= 5, exactness of pow/gcd/lcm/abs/sign against BigInt, and the 32-bit word x word and word x shift 0..40 grid; "
+            "~24k exported cases and 10k recorded events (ints to 2^80) are compared with / validated against the model.",
+            "Trusted: TLC, LibOps/Bits32/BigInt as the reading of the statement (bitwise domain: unsigned 32-bit words per the doc "
+            "strings); float accuracy of means is compared with tolerance; chunks([]) , prod([]), range step 0, pow with negative "
+            "exponent are drift only.",
+            "DESIGN.md 4 C19"),
     "C20": (["LexerOps.tla", "Lexer.tla", "LexerMC.tla", "Parser.tla", "ParserTable.tla"],
             "TLC-checked scanner line invariant (LineIsStartLine vs reference LineOf) + replay of exported token lines; parser "
             "automaton names the offending token of syntax faults; planted runtime/module faults under random multi-line layouts",
